@@ -123,6 +123,28 @@ func streamC16(r *Rand, n int, o *Out) {
 	collapse := neutral[2].cfg
 	skipEq := newCfg("skipEquals", url.NewParser(url.WithSkipEqualsForEmptySearchParamsValue()), 0, 0)
 
+	// file bases whose drive letter was left un-normalised (only possible under skip-drive-letter-normalization) × references
+	// with and without a drive letter of their own: the file / file-slash states consult the BASE's first segment
+	{
+		skipDrive := neutral[3].cfg
+		for _, c := range []*Cfg{skipDrive, defaultCfg} {
+			for _, b := range []string{"file:///D|/a", "file:///d:/a", "file://h/D|/a", "file:///D|", "file:///x/D|/a"} {
+				h := &Hist{}
+				for _, ref := range []string{"/C:x", "/C|x", "/C:/x", "C|", "/x", "//D|/y", "..", "?q", "/", "\\C|\\x", "//"} {
+					h.ParseRef(c, b, ref)
+				}
+				o.EmitHist("k", h)
+			}
+		}
+		// the predefined profiles on urls with an empty host (their host hooks see it)
+		for _, p := range predefinedProfiles {
+			h := &Hist{}
+			for _, in := range []string{"a://", "sc://", "sc:///p", "file:///x", "file://", "sc://@/", "sc://:80", "http:///x", "sc://./", "sc://.../p", "sc://?q", "sc://#f"} {
+				h.CanonParse(p, in)
+			}
+			o.EmitHist("k", h)
+		}
+	}
 	for i := 0; i < n; i++ {
 		rr := r.Fork()
 		in := genInput(rr)
@@ -346,6 +368,9 @@ func streamC16(r *Rand, n int, o *Out) {
 		if rr.P(30) && derr == nil {
 			// a replaced set governs exactly the component and scheme class it names
 			c := uint("!$&'()*+,;=:@[]^_`{|}~-."[rr.N(24)])
+			if rr.P(15) {
+				c = '%' // the set also decides what happens to a '%' that starts no escape (each state's invalid-escape branch)
+			}
 			which := rr.N(5)
 			var cfg *Cfg
 			switch which {
@@ -362,6 +387,10 @@ func streamC16(r *Rand, n int, o *Out) {
 			}
 			orc.Eval("C16")
 			in2 := in + rr.Pick([]string{"", "?", "#"}) + string(rune(c)) + rr.Pick([]string{"", "/" + string(rune(c)), "?" + string(rune(c)), "#" + string(rune(c))})
+			if c == '%' {
+				t := rr.Pick([]string{"%", "%2", "%zz", "a%", "%2e%2", "%%41"})
+				in2 = in + rr.Pick([]string{"/", "?", "#"}) + t + rr.Pick([]string{"", "/" + t, "?" + t, "#" + t})
+			}
 			d2, e2 := parseWith(defaultCfg.Parser, base, in2)
 			var u *url.Url
 			var err error
@@ -382,7 +411,10 @@ func streamC16(r *Rand, n int, o *Out) {
 				if !governs && *comp != *compD {
 					orc.Fail("C16", "encode-set-option-wrong-scheme-class", fmt.Sprintf("%s changed %s of a URL of the other scheme class", cfg.Name, q(*compD)), tokOf())
 				}
-				if governs && strings.ContainsRune(*comp, rune(c)) && !d2.OpaquePath() {
+				if governs && c == '%' && hasSinglePercent(*comp) && !d2.OpaquePath() {
+					orc.Fail("C16", "encode-set-option-no-effect", fmt.Sprintf("%s left a '%%' that starts no escape unencoded in %s", cfg.Name, q(*comp)), tokOf())
+				}
+				if governs && c != '%' && strings.ContainsRune(*comp, rune(c)) && !d2.OpaquePath() {
 					orc.Fail("C16", "encode-set-option-no-effect", fmt.Sprintf("%s left %q unencoded in %s", cfg.Name, rune(c), q(*comp)), tokOf())
 				}
 				*comp, *compD, g.Href, gd.Href = "", "", "", ""
